@@ -27,7 +27,11 @@ def call_builtin(I, name, args, kwargs, fr, node):
         if isinstance(v, VObj):
             h = ctx.heap[v.oid]
             if h.kind == 'list':
-                return VInt(len(h.fields['items']))
+                items = h.fields['items']
+                hid = [x for x in items if isinstance(x, VHidden)]
+                if hid:
+                    return VInt(z3.simplify(len(items) - len(hid) + sum(x.count for x in hid)))
+                return VInt(len(items))
             if h.kind == 'symlist':
                 return h.fields['len']
             hook = I.reg.heap_hook(h.kind)
@@ -128,6 +132,9 @@ def call_builtin(I, name, args, kwargs, fr, node):
         return VInt(ctx._const('id', z3.IntSort()))
     if name == 'print':
         return VNone()
+    if name == 'open':
+        ctx.trust('assumed: open()/write()/close() of the ./log file in DoLog do not raise (I/O failure is outside the contracts)')
+        return ctx.alloc(HObj('iface:file', 'obj', {}, closed=False))
     if name == 'sorted':
         raise Unsupported('sorted')
     if name == 'locals':
@@ -219,7 +226,8 @@ def call_class(I, c, args, kwargs, fr, node):
                 return I.to_str_call(v, fr)
         raise Unsupported('%s(...) conversion' % n)
     if n == 'int':
-        v = args[0]
+        v = I.unopt(args[0], 'int argument') if isinstance(args[0], VOpt) else args[0]
+        args = [v] + list(args[1:])
         if isinstance(v, VInt):
             return v
         if isinstance(v, VStr):
@@ -252,6 +260,9 @@ def call_class(I, c, args, kwargs, fr, node):
     if n == 'object':
         return ctx.alloc(HObj('object', 'obj', {}, closed=True))
     if n in I.prog.classes:
+        short = n.split('.')[-1]
+        if short in EXC_PARENTS and any(b.split('.')[-1] in EXC_PARENTS or b == 'Exception' for b in I.prog.classes[n].bases):
+            return ctx.new_exc(short, list(args))
         o = ctx.alloc(HObj(n, 'obj', {}, closed=True))
         fi = I.prog.find_method(n, '__init__')
         if fi is not None:
@@ -457,6 +468,8 @@ def list_method(I, self, meth, args, kwargs, fr):
             I.raise_exc('IndexError')
         if args:
             return items.pop(I.concrete_int(args[0], None))
+        if isinstance(items[-1], VHidden):
+            raise Unsupported('pop reaches the part of the list the contract shape hides')
         return items.pop()
     if meth == 'insert':
         items.insert(I.concrete_int(args[0], None), args[1])
